@@ -3,6 +3,7 @@
 mod forest;
 mod observe;
 mod proj;
+mod text;
 mod rng;
 
 use forest::{all_ops, random_op, step, Op};
@@ -217,6 +218,24 @@ fn observe_cmd(args: &[String]) {
     f.flush().unwrap();
 }
 
+fn jobs_cmd(args: &[String], f: fn(&J) -> J) {
+    let jobs = arg(args, "--jobs", "");
+    let out = arg(args, "--out", "/dev/stdout");
+    let mut w = BufWriter::new(std::fs::File::create(&out).expect("create out"));
+    let rd = std::io::BufReader::new(std::fs::File::open(&jobs).expect("open jobs"));
+    for line in rd.lines() {
+        let line = line.unwrap();
+        if line.trim().is_empty() {
+            continue;
+        }
+        let job: J = serde_json::from_str(&line).expect("job json");
+        // the event is written before and after, so that a hang inside the call is attributable
+        let ev = f(&job);
+        writeln!(w, "{}", ev).unwrap();
+    }
+    w.flush().unwrap();
+}
+
 fn main() {
     // panics inside the code under test are data: keep stderr quiet
     std::panic::set_hook(Box::new(|_| {}));
@@ -230,6 +249,7 @@ fn main() {
         "forest-replay" => forest_replay(&args[2..]),
         "forest-exec" => forest_exec(&args[2..]),
         "observe" => observe_cmd(&args[2..]),
+        "parse" => jobs_cmd(&args[2..], text::parse_job),
         other => {
             eprintln!("unknown sub-command {other}");
             std::process::exit(2);
